@@ -5,7 +5,7 @@ Helper lemmas for C13 (gate part), layer 1: positional lemmas about
 conjugation tables, and the string-level algebra of `conjAt1` / `conjAt2`
 (homomorphism, commutation character, identity, inverse).  Core Lean only.
 -/
-namespace SqVerif.Stab
+namespace SqVerif.Stab.Gate
 
 /-! ### getP / setP -/
 
@@ -352,4 +352,4 @@ theorem conjAt2_conjAt2 (g : Gate2) (c t : Nat) (p : POp) (hc : c < p.ps.length)
     simp only [conjAt2, hA, e1, e2]
     omega
 
-end SqVerif.Stab
+end SqVerif.Stab.Gate
